@@ -26,7 +26,8 @@ impl<F: Inner> SymF<F> {
     }
     pub fn named(v: F, name: &str) -> Self {
         let limbs = v.into_bigint().0.to_vec();
-        let id = A.with(|a| { let mut a = a.borrow_mut(); let id = a.named_var(name); a.var_shadow.insert(id, limbs); id });
+        let pos = merlin::vlog::len();
+        let id = A.with(|a| { let mut a = a.borrow_mut(); let id = a.named_var(name); a.var_shadow.insert(id, limbs); a.var_pos.entry(id).or_insert(pos); id });
         let s = SymF { v, id };
         s.register();
         s
